@@ -110,6 +110,9 @@ func (c19) Plan(tier string, seed int64) []core.Scenario {
 	for a := 0; a < 8; a++ {
 		out = append(out, core.Sc("shared-defaults").WithN("def", a))
 	}
+	for def := 0; def < 8; def += 5 {
+		out = append(out, core.Sc("derived").WithN("def", def))
+	}
 	for _, tr := range []string{"ws", "http"} {
 		for def := 0; def < 8; def += 3 {
 			out = append(out, core.Sc("e2e").WithS("transport", tr).WithN("def", def))
@@ -131,6 +134,8 @@ func (p c19) Run(sc core.Scenario) core.Result {
 		p.runHandlerSeq(sc, r)
 	case "shared-defaults":
 		p.runSharedDefaults(sc, r)
+	case "derived":
+		p.runDerived(sc, r)
 	}
 	return r.Result()
 }
@@ -504,4 +509,35 @@ func (p c19) runE2E(sc core.Scenario, r *core.R) {
 	}
 	r.Obs("e2e_clients", 9)
 	r.Sample(map[string]interface{}{"transport": tr, "defaults": permStr(def), "impl_invocations": atomic.LoadInt64(&impl.n)})
+}
+
+type c19OtherKey struct{}
+
+// runDerived: permissions attached a second time on a context derived from one that already
+// carries a set (an implementation escalating or narrowing for an internal sub-call). The
+// derived context must see exactly the new set; the parent, and every other context derived
+// from the parent, must keep seeing exactly what was attached to them.
+func (p c19) runDerived(sc core.Scenario, r *core.R) {
+	def := subset(sc.I("def"))
+	impl := &c19Impl{}
+	var px c19Proxy
+	auth.PermissionedProxy(permU, def, impl, &px)
+	for a := 0; a < 8; a++ {
+		for b := 0; b < 8; b++ {
+			pa, cb := subset(a), subset(b)
+			parent := auth.WithPerm(context.Background(), pa)
+			sibling := context.WithValue(parent, c19OtherKey{}, 1)
+			mid, cancel := context.WithCancel(parent)
+			child := auth.WithPerm(mid, cb)
+			label := fmt.Sprintf("def=%s parent=%s child=%s", permStr(def), permStr(pa), permStr(cb))
+			p.callAll(&px, child, impl, cb, r, label+" [child]")
+			p.callAll(&px, parent, impl, pa, r, label+" [parent after the child attached its own set]")
+			p.callAll(&px, sibling, impl, pa, r, label+" [sibling of the child]")
+			p.callAll(&px, mid, impl, pa, r, label+" [intermediate context]")
+			cancel()
+			r.AddKey(fmt.Sprintf("derived def=%s parent=%s child=%s", permStr(def), permStr(pa), permStr(cb)))
+		}
+	}
+	r.Key(fmt.Sprintf("derived def=%s", permStr(def)), true)
+	r.Sample(map[string]interface{}{"defaults": permStr(def), "scenario": "second WithPerm on a derived context, 8x8 parent/child sets", "impl_invocations": atomic.LoadInt64(&impl.n)})
 }
